@@ -1075,46 +1075,6 @@ def _():
 _trcore.GEN_IMPORTS["Eval"] = ["BlobfinderModel.Model.Scalar"]
 
 
-@fragment("Eval", "refine_center")
-def _():
-    fn = find_def(BC, "refine_center")
-    body = stmts_of(fn)
-    if [ast.unparse(s).replace("(", "").replace(")", "") for s in body[:2]] != ["y, x = center", "s = corrmap.shape"]:
-        raise Untranslatable(f"refine_center prologue: {[ast.unparse(s) for s in body[:2]]}")
-    rr = body[2]
-    if not (isinstance(rr, ast.Assign) and ast.unparse(rr.targets[0]) == "r"):
-        raise Untranslatable("refine_center: clip of r")
-    params = [("r", INT), ("y", INT), ("x", INT), ("s0", INT), ("s1", INT)]
-    env = Env(subst={"s[0]": ("s0", INT), "s[1]": ("s1", INT)}, vars={n: (n, t) for n, t in params})
-    out = expr_def("refine_r", params, rr.value, subst=env.subst, doc="clipped refinement radius of `refine_center`")
-    iff = body[3]
-    if not isinstance(iff, ast.If):
-        raise Untranslatable("refine_center: guard")
-    g, _ = tr(iff.test, Env(vars={"r": ("r", INT)}))
-    out += f"\n/-- guard: return the integer centre unrefined -/\ndef refine_guard (r : Int) : Bool := {g}\n"
-    if len(iff.body) != 1 or ast.unparse(iff.body[0]) != "return (np.float32(y), np.float32(x))":
-        raise Untranslatable("refine_center: guarded return")
-    els = iff.orelse
-    cut = [s for s in els if isinstance(s, ast.Assign) and ast.unparse(s.targets[0]) == "cutout"]
-    if len(cut) != 1 or not isinstance(cut[0].value, ast.Subscript) or ast.unparse(cut[0].value.value) != "corrmap":
-        raise Untranslatable("refine_center: cutout")
-    sl = cut[0].value.slice.elts
-    e2 = Env(vars={"y": ("c", INT), "x": ("c", INT), "r": ("r", INT)})
-    lo_y, hi_y = tr(sl[0].lower, e2)[0], tr(sl[0].upper, e2)[0]
-    lo_x, hi_x = tr(sl[1].lower, e2)[0], tr(sl[1].upper, e2)[0]
-    if (lo_y, hi_y) != (lo_x, hi_x):
-        raise Untranslatable("refine_center: cutout bounds differ between the axes")
-    out += f"def cut_lo (c r : Int) : Int := {lo_y}\ndef cut_hi (c r : Int) : Int := {hi_y}\n"
-    ry = [s for s in els if isinstance(s, ast.Assign) and ast.unparse(s.targets[0]) == "refined_y"][0]
-    rx = [s for s in els if isinstance(s, ast.Assign) and ast.unparse(s.targets[0]) == "refined_x"][0]
-    e3 = Env(vars={"y": ("c", INT), "x": ("c", INT), "ry": ("com", RAT), "rx": ("com", RAT), "r": ("r", INT)})
-    ty, tx = tr(ry.value, e3), tr(rx.value, e3)
-    if ty != tx:
-        raise Untranslatable("refined_y / refined_x differ")
-    out += f"def refined_coord (c : Int) (com : Rat) (r : Int) : Rat := {coerce(ty[0], ty[1], RAT)}\n"
-    return out
-
-
 @fragment("Eval", "kernels")
 def _():
     """the numba kernels as Lean functions over images (see kernels.py): loops become sums / running minima"""
@@ -1140,39 +1100,9 @@ def _():
 
 @fragment("Eval", "evaluate")
 def _():
-    fn = find_def(BC, "evaluate_correlations")
-    loops = [s for s in stmts_of(fn) if isinstance(s, ast.For)]
-    if len(loops) != 1 or ast.unparse(loops[0].iter) != "range(len(corrs))":
-        raise Untranslatable("evaluate_correlations loop")
-    body = loops[0].body
-    out = ""   # (the loop body is translated as a whole by the `evaluate_loop` fragment)
-    rc = find_calls(loops[0], "refine_center")
-    if len(rc) != 1 or len(rc[0].args) != 3:
-        raise Untranslatable("refine_center call")
-    v, t = tr(rc[0].args[1], Env())
-    out += f"/-- refinement radius passed by `evaluate_correlations` -/\ndef refine_radius : Int := {v}\n"
-    pe = find_def(BC, "peak_elevation")
-    rmin = default_of(pe, "r_min")
-    rmax = default_of(pe, "r_max")
-    v, t = tr(rmin, Env())
-    out += f"def elev_rmin : Rat := {coerce(v, t, RAT)}\n"
-    out += f"def elev_rmax_is_inf : Bool := {lean_bool(ast.unparse(rmax) in ('np.inf', 'float(\"inf\")', 'math.inf'))}\n"
-    call = find_calls(loops[0], "peak_elevation")
-    if len(call) != 1 or len(call[0].args) != 3 or call[0].keywords:
-        raise Untranslatable("peak_elevation call overrides r_min / r_max")
-    out += _fp("elev_call_args", ", ".join(ast.unparse(a) for a in call[0].args))
-    inner = [n for n in ast.walk(pe) if isinstance(n, ast.If)]
-    if len(inner) != 1:
-        raise Untranslatable("peak_elevation: condition")
-    env = Env(vars={"dist": ("dist", RAT), "r_min": ("r_min", RAT)})
-    test = inner[0].test
-    if not (isinstance(test, ast.BoolOp) and isinstance(test.op, ast.And) and len(test.values) == 2
-            and ast.unparse(test.values[1]).strip("()") == "dist < r_max"):
-        raise Untranslatable(f"peak_elevation test {ast.unparse(test)}")
-    c, _ = tr(test.values[0], env)
-    out += f"def elev_in_range (dist r_min : Rat) : Bool := {c}\n"
-    out += _fp("unravel_body", " ; ".join(_stmt_texts(find_def(BC, "unravel_index"))))
-    return out
+    """(the evaluation kernels are translated as whole functions by the `kernels` / `evaluate_loop` fragments; only the
+    dimension loop of unravel_index stays a text fingerprint, with an exhaustive correspondence in C03)"""
+    return _fp("unravel_body", " ; ".join(_stmt_texts(find_def(BC, "unravel_index"))))
 
 
 @fragment("Eval", "evaluate_loop")
